@@ -45,7 +45,7 @@ def tags_of(cls, stage, kind, why, fields):
                 tags.add("C23")
         if cls == "app_unstake" or (cls == "rejected" and kind == "app_unstake"):
             tags.add("C24")
-    if "application_staked_tokens_pool" in fields or ".tokens" in fields or "supply" in fields:
+    if "application_staked_tokens_pool" in fields or ".tokens" in fields or ".status" in fields or "supply" in fields:   # status decides whether tokens count
         tags.add("C20")
     if "appIx" in fields:
         tags.add("C28")        # the staking-set index is what MaxApplications counts
